@@ -19,6 +19,7 @@ func mv(s int, ps []int, mb int) Op    { return Op{Kind: "cmd", S: s, Cmd: "move
 func fb(s int, c string, ps ...int) Op { return Op{Kind: "cmd", S: s, Cmd: c, Ps: ps} }
 func drain(s int) Op                   { return Op{Kind: "drain", S: s} }
 func dl(s int) Op                      { return Op{Kind: "deliver", S: s} }
+func ro(o Op) Op                       { o.RO = true; return o }            // the same command in a session that used EXAMINE
 func qs(s int) Op                      { return Op{Kind: "quiesce", S: s} } // deliver all, NOOP, probe, compare with a fresh session
 
 func Corpus() []Scenario {
@@ -45,6 +46,16 @@ func Corpus() []Scenario {
 			sel(0, 0), sel(1, 0), app(0, 0), app(0, 0), drain(1), cmd(1, "noop"), cmd(1, "probe"),
 			mv(0, []int{1}, 1), sel(0, 1), mv(0, []int{1}, 0), sel(0, 0), store(0, []int{2}, "add", false, 3),
 			drain(1), cmd(1, "search"), cmd(1, "probe"), qs(1)}},
+		{Name: "new-message-behind-held-readd-then-flags", K: 2, Ops: []Op{ // a NEW message queues behind the held re-add and is then flagged: the flag change waits with it
+			sel(0, 0), sel(1, 0), app(0, 0), app(0, 0), drain(1), cmd(1, "noop"), cmd(1, "probe"),
+			mv(0, []int{1}, 1), sel(0, 1), mv(0, []int{1}, 0), sel(0, 0), app(0, 0), store(0, []int{3}, "add", false, 3),
+			drain(1), cmd(1, "search"), cmd(1, "probe"), qs(1)}},
+		{Name: "examined-mailbox-fetch-marks-nothing", K: 2, Ops: []Op{ // EXAMINE: a body fetch leaves no \Seen in the database nor in the session's own view
+			sel(1, 0), app(1, 0), app(1, 0, 3), drain(0), ro(sel(0, 0)), cmd(0, "probe"),
+			ro(fb(0, "fetchbody", 1)), cmd(0, "probe"), ro(fb(0, "fetchflagsbody", 1, 2)), cmd(0, "probe"), cmd(1, "noop"), cmd(1, "probe"), qs(0), qs(1)}},
+		{Name: "examined-mailbox-refuses-changes", K: 2, Ops: []Op{ // EXAMINE: STORE/EXPUNGE/COPY/MOVE are refused; pending removals stay pending
+			sel(1, 0), app(1, 0, 1), app(1, 0), drain(0), ro(sel(0, 0)), cmd(0, "probe"), cmd(1, "expunge"), drain(0),
+			ro(store(0, []int{1}, "add", false, 3)), ro(cmd(0, "expunge")), ro(cp(0, []int{1}, 1)), ro(mv(0, []int{2}, 1)), cmd(0, "probe"), qs(0), qs(1)}},
 		{Name: "pending-exists-then-readd", K: 2, Ops: []Op{ // appended, removed and put back before the observer heard of it at all
 			sel(0, 0), sel(1, 0), app(0, 0), mv(0, []int{1}, 1), sel(0, 1), mv(0, []int{1}, 0), sel(0, 0),
 			drain(1), cmd(1, "search"), cmd(1, "probe"), qs(1)}},
@@ -68,6 +79,10 @@ func Corpus() []Scenario {
 		{Name: "connector-delete-of-message-in-two-mailboxes", K: 2, Ops: []Op{ // every mailbox that held the message gets its EXPUNGE
 			sel(0, 0), sel(1, 1), app(0, 0), app(0, 0), cp(0, []int{1, 2}, 1), drain(1), cmd(1, "noop"), cmd(1, "probe"),
 			{Kind: "conn", Cmd: "delete", Msg: 1}, drain(0), drain(1), qs(0), qs(1)}},
+		{Name: "connector-adds-to-mailbox-and-flags-at-once", K: 2, Ops: []Op{ // one MessageMailboxesUpdated: membership updates reach the sessions before the flag updates
+			sel(0, 0), sel(1, 1), app(0, 0), app(0, 0), drain(1), cmd(1, "noop"), cmd(1, "probe"),
+			{Kind: "conn", Cmd: "setmbox", Msg: 1, Mbs: []int{0, 1}, Flag: 2, Add: true}, {Kind: "conn", Cmd: "flag", Msg: 1, Flag: 2, Add: true, Virt: true},
+			drain(0), drain(1), qs(1), qs(0)}},
 		{Name: "idle-bulk", K: 2, Bulk: true, Ops: []Op{
 			sel(0, 0), sel(1, 0), cmd(1, "idle"), app(0, 0), app(0, 0, 2), drain(1), store(0, []int{1}, "add", false, 3), drain(1),
 			cmd(1, "done"), cmd(1, "probe")}},
